@@ -186,6 +186,22 @@ def replay_array(p):
                 if not np.allclose(got[i, pol], want, rtol=1e-9, atol=1e-9):
                     k = int(np.argmax(np.abs(got[i, pol] - want)))
                     msgs.append(f"segment {si} antenna {i} pol {pol}: sample {k} = {got[i, pol, k]!r}, own + background[k+max-delay] = {want[k]!r}")
+    # the twin shares the constructor with the array under test; absolute times are checked against a closed form:
+    # sources whose value is a multiple of their own time stamp (own: 3 t, background: 1000 t)
+    try:
+        det = an.MultiAntennaArray(num_antennas=na, sample_rate=sr, fch1=100.0, ascending=True, num_pols=npol, delays=delays, t_start=t0, seed=5)
+        for ant in det.antennas:
+            for st in ant.streams:
+                st.add_signal(lambda ts: np.asarray(ts) * 3.0)
+        for bg in det.bg_streams:
+            bg.add_signal(lambda ts: np.asarray(ts) * 1000.0)
+        n0 = sum(segs[0]) if segs[0] else 3
+        out = np.concatenate([det.get_samples(n) for n in (segs[0] or [3])], axis=2)
+        exp = np.array([[[3.0 * (t0 + k / sr) + 1000.0 * (t0 + (k + mx - dl[i]) / sr) for k in range(n0)] for _ in range(npol)] for i in range(na)])
+        if out.shape != exp.shape or not np.allclose(out, exp, rtol=1e-9, atol=1e-9):
+            msgs.append(f"first observation from t_start={t0}: antenna 0 gets {out[0, 0, :2].tolist()}, own(t) + background(t + (max_delay - delay)/rate) is {exp[0, 0, :2].tolist()}")
+    except Exception as e:
+        msgs.append(f"deterministic array raised {type(e).__name__}: {e}")
     return bool(msgs), '; '.join(msgs[:3]) or 'array output agrees with own + delayed background'
 
 
